@@ -140,7 +140,10 @@ pub fn run(r: &mut R) {
         rt, mt = tup(["&" + f for f in F]), tup(["&mut " + f for f in F])
         binds = ["p%d" % i for i in range(n)]
         for sattr, kinds in (("#[into(owned, ref, ref_mut)]", "orm"), ("#[into(ref)]", "r"), ("#[into(ref_mut, owned)]", "om"),
-                             ("#[into(ref(%s), owned(%s))]" % (ft, hT), "rH")):
+                             ("#[into(ref(%s), owned(%s))]" % (ft, hT), "rH"),
+                             # the same selections spread over repeated attributes
+                             ("#[into(owned)] #[into(ref)]", "or"), ("#[into(owned)] #[into(ref_mut)]", "om"), ("#[into(ref)] #[into(ref_mut)]", "rm"),
+                             ("#[into(ref_mut)] #[into(ref)]", "rm"), ("#[into(ref)] #[into(owned)]", "or"), ("#[into(owned)] #[into(ref)] #[into(ref_mut)]", "orm")):
             lines = ["let mut s = %s;" % full]
             if "r" in kinds:
                 lines += ['{ let %s = <%s>::from(&s); r.eq("Into<(&..)> yields the fields themselves, in order", vec![%s], vec![%s]); }' % (
@@ -156,6 +159,8 @@ pub fn run(r: &mut R) {
                 lines += ['r.eq("owned(listed)", <%s>::from(s.clone()), %s);' % (hT, tup(["Hx::<%d, %d>(%d)" % (sh.owner, sh.idx[i], 10 * i + 3) for i in range(n)]))]
             if "r" not in kinds:
                 lines += ['r.check("no shared-reference conversion unless selected", !has_from!(%s, &S));' % rt]
+            if "m" not in kinds:
+                lines += ['r.check("no mutable-reference conversion unless selected", !has_from!(%s, &mut S));' % mt]
             mk("into_refs " + sattr, [sattr], {}, ["Into"], lines)
         # Into skip: every non-empty proper subset of skipped fields
         if n >= 2:
